@@ -66,6 +66,7 @@ class Ctx:
         self.mutated = []             # (object, what) writes to frozen objects
         self.writes = []              # every attribute write (object, name, value)
         self.in_quant = 0             # >0 while building a quantified body (no path effects)
+        self.quant_guards = []        # range conditions of the comprehension variables being evaluated
         self.nyield_sites = 0
 
     # ---- fresh symbols -------------------------------------------------------------
